@@ -621,6 +621,18 @@ func isParentClass(
 	isInclude bool,
 ) bool {
 
+	return walkIsParentClass(sig, frame, class, isStaticTarget, isExtend, isInclude, map[base.ClassNode]bool{})
+}
+
+func walkIsParentClass(
+	sig base.Sig,
+	frame, class string,
+	isStaticTarget bool,
+	isExtend bool,
+	isInclude bool,
+	visited map[base.ClassNode]bool,
+) bool {
+
 	if isExtend && !isStaticTarget {
 		return false
 	}
@@ -647,8 +659,17 @@ func isParentClass(
 
 	classNode := base.ClassNode{Frame: frame, Class: class}
 
+	// the answer depends on the kind of edge a class was reached through
+	visitKey := base.ClassNode{Frame: frame, Class: class, IsExtend: isExtend, IsInclude: isInclude}
+
+	if visited[visitKey] {
+		return false
+	}
+
+	visited[visitKey] = true
+
 	for _, parentNode := range base.ClassInheritanceMap[classNode] {
-		if isParentClass(sig, parentNode.Frame, parentNode.Class, isStaticTarget, parentNode.IsExtend, parentNode.IsInclude) {
+		if walkIsParentClass(sig, parentNode.Frame, parentNode.Class, isStaticTarget, parentNode.IsExtend, parentNode.IsInclude, visited) {
 			return true
 		}
 	}
